@@ -105,8 +105,14 @@ def value(ir, name, env, init=0):
     if key not in _DRV:
         _DRV[key] = sorted(ir.drivers(name, exact=True), key=lambda a: a.order)
     for a in _DRV[key]:
-        if a.domain != 'comb' or a.state is not None:
+        if a.domain != 'comb':
             raise Undecided('%s is not a plain combinational output: %s' % (name, q.fmt(a)))
+        if a.state is not None:
+            # a handler with internal state: the caller says which state to evaluate ('$state': {fsm id: state})
+            if '$state' not in env:
+                raise Undecided('%s is not a plain combinational output: %s' % (name, q.fmt(a)))
+            if env['$state'].get(a.state[0]) != a.state[1]:
+                continue
         if guard_true(a, env):
             v = ev(a.rhs, env)
     return v
@@ -649,8 +655,15 @@ def check_acm(ctx):
     ctx.need(si is not None and si.w == 1, 'tx_data_pid of the request handler interface')
     sigs.update(read_sigs(h, [PID]))
     bad = {k: [] for k in ('claim', 'ack', 'zlp', 'no-stall', 'pid')}
+    # a handler that keeps state of its own must answer correctly in EVERY state it can be in: its state is moved by strobes
+    # that are not gated to this endpoint (handshakes_in.ack pulses for every host ACK to any endpoint), so nothing ties the
+    # state to the stage of the control transfer
+    fstates = [dict(zip([f.id for f in h.fsms], combo)) for combo in itertools.product(*[f.states for f in h.fsms])] if h.fsms else [None]
     try:
-        for env in valuations(ctx, 'ACMRequestHandlers', sigs):
+        for env0, fst in itertools.product(valuations(ctx, 'ACMRequestHandlers', sigs), fstates):
+            env = dict(env0)
+            if fst is not None:
+                env['$state'] = fst
             v = {n: value(h, s, env) for n, s in outs.items()}
             mine = env[TYPE] == CLASS and env[REQ] == SET_LINE_CODING
             if bool(v['claim']) != mine:
